@@ -55,7 +55,11 @@ def run_episode(spec, uid="E"):
     base = tempfile.mkdtemp(prefix="verif-scan-", dir="/dev/shm" if os.path.isdir("/dev/shm") else None)
     events, archs = [], {}
     try:
-        listed = pj.materialise(proj, base)
+        if proj.get("wild"):          # a real source tree, copied and abstracted independently of pytestarch
+            from harness import wild
+            listed = wild.materialise(proj, base)
+        else:
+            listed = pj.materialise(proj, base)
         events.append({"k": "proj", "id": uid, "first": True, **listed})
         root_path = os.path.join(base, proj["root"])
         for it in spec["items"]:
